@@ -125,6 +125,15 @@ func genC03(r *rt.Rand, tier string, idx int) *world.Scenario {
 			b := simkv.EncodeKey([]byte(keys[r.Intn(len(keys))]), []uint64{0, sc.InitRev + uint64(1+r.Intn(nw))}[r.Intn(2)])
 			sc.Parts = append(sc.Parts, hex.EncodeToString(b))
 		}
+		if idx%10 == 6 {
+			// ... as real regions of the TiKV mock cluster, so that the adapter computes the partitions
+			sc.Class += "(tikv regions)"
+			sc.Engine = "tikv"
+			if sc.Extra == nil {
+				sc.Extra = map[string]int64{}
+			}
+			sc.Extra["tikv_regions"] = 1
+		}
 	}
 	if idx%10 == 9 {
 		sc.Class += "+read-errors"
